@@ -122,7 +122,11 @@ class AstToDjangoQVisitor(visitor.NodeVisitor):
 
     def visit_Integer(self, node: ast.Integer) -> Value:
         ":meta private:"
-        return Value(node.py_val)
+        try:
+            return Value(node.py_val)
+        except ValueError:
+            # E.g. more digits than Python converts (`sys.set_int_max_str_digits`)
+            raise ex.ValueException(node.val)
 
     def visit_Float(self, node: ast.Float) -> Value:
         ":meta private:"
@@ -159,7 +163,11 @@ class AstToDjangoQVisitor(visitor.NodeVisitor):
 
     def visit_Duration(self, node: ast.Duration) -> Value:
         ":meta private:"
-        return Value(node.py_val)
+        try:
+            return Value(node.py_val)
+        except (ValueError, OverflowError):
+            # E.g. `duration'P1000000000D'` is more than a `timedelta` can hold
+            raise ex.ValueException(node.val)
 
     def visit_GUID(self, node: ast.GUID) -> Value:
         ":meta private:"
